@@ -1227,6 +1227,17 @@ fn obs_diff(a: &crate::observe::Obs, b: &crate::observe::Obs) -> String {
         .unwrap_or_else(|| "equal".into())
 }
 
+/// bind the context variables of `env` on the (outer) query
+fn bind_env(q: &mut Query<'_>, store: &AnnotationStore, env: &[(String, It)]) -> Result<(), String> {
+    for (name, it) in env {
+        match materialise(store, it) {
+            Some(item) => q.bind_from_result(name.as_str(), &item),
+            None => return Err(format!("context item {} does not exist", it.show())),
+        }
+    }
+    Ok(())
+}
+
 fn run_m(case: &MCase) -> Outcome {
     let mut out = Outcome::new();
     out.label("case:mutate");
@@ -1251,6 +1262,25 @@ fn run_m(case: &MCase) -> Outcome {
         }
         MKind::Add { .. } => {}
     }
+    // one case in three hands a referent to the mutating query as a *context variable* (Query::bind_*var) instead of
+    // naming it by id: the variable has to reach the SELECT sub-query
+    let mut env: Vec<(String, It)> = vec![];
+    if case.hist.ops.len() % 3 == 1 {
+        for c in lvl.cons.iter_mut() {
+            let repl = match c {
+                CC::Resource { r, meta, offset, .. } => Some((CC::VarResource { var: "ctx".into(), meta: *meta, offset: *offset }, It::R(*r))),
+                CC::Annotation { a, meta, rec, .. } => Some((CC::VarAnnotation { var: "ctx".into(), meta: *meta, rec: *rec }, It::A(*a))),
+                CC::DataSet { s, meta: false, .. } => Some((CC::VarDataSet { var: "ctx".into() }, It::S(*s))),
+                _ => None,
+            };
+            if let Some((nc, it)) = repl {
+                *c = nc;
+                env.push(("ctx".to_string(), it));
+                out.label("m_context_variable");
+                break;
+            }
+        }
+    }
     let rtn = RTN[lvl.rtype as usize];
     out.label(&format!("mtype:{}", rtn));
     if first_unimplemented(&lvl).is_some() {
@@ -1260,7 +1290,7 @@ fn run_m(case: &MCase) -> Outcome {
     }
     let select_text = print_levels(std::slice::from_ref(&lvl));
     // what the selection selects (on the twin, before anything changes)
-    let selected: Vec<It> = match run_level(&m2.store, &lvl, &[], Form::Text) {
+    let selected: Vec<It> = match run_level(&m2.store, &lvl, &env, Form::Text) {
         Ok(v) => v,
         Err(a) => {
             out.label("m_select_failed");
@@ -1278,6 +1308,41 @@ fn run_m(case: &MCase) -> Outcome {
     if selected.len() > 1 {
         out.label("m_multi_selection");
     }
+    // DELETE of data selected through a nested query: the same data item comes back in one row per annotation using it
+    const NESTED_DATA: &str = "SELECT ANNOTATION ?w { SELECT DATA ?v0 WHERE ANNOTATION ?w; }";
+    let nested_rows = matches!(case.kind, MKind::Delete) && lvl.rtype == T_DATA && case.hist.ops.len() % 4 == 2;
+    let selected: Vec<It> = if nested_rows {
+        out.label("delete_nested_rows");
+        let r = catch(|| -> Result<(Vec<It>, usize), String> {
+            let (q, _) = Query::parse(NESTED_DATA).map_err(|e| format!("{}", e))?;
+            let mut v: Vec<It> = vec![];
+            let mut rows = 0;
+            for row in m2.store.query(q).map_err(|e| format!("{}", e))? {
+                if let Ok(QueryResultItem::AnnotationData(d)) = row.get_by_name("v0") {
+                    rows += 1;
+                    let it = It::D(d.set().handle().as_usize(), d.handle().as_usize());
+                    if !v.contains(&it) {
+                        v.push(it);
+                    }
+                }
+            }
+            Ok((v, rows))
+        });
+        match r {
+            Ok(Ok((v, rows))) => {
+                if rows > v.len() {
+                    out.label("delete_item_in_several_rows");
+                }
+                v
+            }
+            _ => {
+                out.label("m_select_failed");
+                return out;
+            }
+        }
+    } else {
+        selected
+    };
     let before = observe(&m1.store);
     match &case.kind {
         MKind::Delete => {
@@ -1286,15 +1351,22 @@ fn run_m(case: &MCase) -> Outcome {
             // DELETE in STAMQL text exists for annotations only; other types through the programmatic form
             let use_text = lvl.rtype == T_ANN && case.hist.ops.len() % 2 == 0;
             let lv = [lvl.clone()];
+            let qtext = if nested_rows { format!("DELETE DATA ?v0 {{ {} }} [built]", NESTED_DATA) } else { qtext };
             let res = catch(|| {
-                if use_text {
-                    let (q, rest) = Query::parse(qtext.as_str()).map_err(|e| format!("parse: {}", e))?;
+                if nested_rows {
+                    let (sub, _) = Query::parse(NESTED_DATA).map_err(|e| format!("parse: {}", e))?;
+                    let q = Query::new(QueryType::Delete, Some(Type::AnnotationData), Some("v0")).with_subquery(sub);
+                    m1.store.query_mut(q).map(|it| it.count()).map_err(|e| format!("{}", e))
+                } else if use_text {
+                    let (mut q, rest) = Query::parse(qtext.as_str()).map_err(|e| format!("parse: {}", e))?;
                     if !rest.trim().is_empty() {
                         return Err(format!("parse left {:?}", rest));
                     }
+                    bind_env(&mut q, &m1.store, &env)?;
                     m1.store.query_mut(q).map(|it| it.count()).map_err(|e| format!("{}", e))
                 } else {
-                    let q = Query::new(QueryType::Delete, Some(rtype_of(lvl.rtype)), Some("v0")).with_subquery(build_levels(&lv));
+                    let mut q = Query::new(QueryType::Delete, Some(rtype_of(lvl.rtype)), Some("v0")).with_subquery(build_levels(&lv));
+                    bind_env(&mut q, &m1.store, &env)?;
                     m1.store.query_mut(q).map(|it| it.count()).map_err(|e| format!("{}", e))
                 }
             });
@@ -1400,10 +1472,11 @@ fn run_m(case: &MCase) -> Outcome {
             }
             let qtext = format!("ADD ANNOTATION ?new WITH {}{{ {} }}", assigns, select_text);
             let res = catch(|| {
-                let (q, rest) = Query::parse(qtext.as_str()).map_err(|e| format!("parse: {}", e))?;
+                let (mut q, rest) = Query::parse(qtext.as_str()).map_err(|e| format!("parse: {}", e))?;
                 if !rest.trim().is_empty() {
                     return Err(format!("parse left {:?}", rest));
                 }
+                bind_env(&mut q, &m1.store, &env)?;
                 m1.store.query_mut(q).map(|it| it.count()).map_err(|e| format!("{}", e))
             });
             // twin: direct annotate per selected item
